@@ -14,6 +14,7 @@ import Ufw.Tie.Varint
 #print axioms Ufw.Props.C13.memory_from_source_spec
 #print axioms Ufw.Props.C13.buffer_from_source_spec
 #print axioms Ufw.Props.C13.stream_order
+#print axioms Ufw.Props.C13.source_to_sink_spec
 #print axioms Ufw.Tie.Misc.const_ssize_max
 #print axioms Ufw.Tie.Misc.const_crc_initial
 #print axioms Ufw.Tie.Misc.const_lenp_kinds
